@@ -31,7 +31,7 @@ const SM4_MODES: [&str; 4] = ["cbc", "cfb", "ofb", "ctr"];
 fn n_targets() -> usize {
     1 + 4 + 1 + 6 + 5 + 1 + 2 + 4 + 4 + 1 + 1 + 1 + 1
 }
-const SPECIALS: usize = 5; // kdf, compute_za, termination, 2 x well-formed documents with wrong-sized fields
+const SPECIALS: usize = 3 + crate::gen_c19::N_SEMANTIC; // kdf, compute_za, termination, well-formed-but-odd documents
 
 fn samples(t: Tier) -> usize {
     t.pick(1, 8)
@@ -335,7 +335,7 @@ pub fn run_c20(p: &mut Prng, tier: Tier, i: usize, sink: &mut Sink) {
                 }
             }
         }
-        3 | 4 => {
+        3 | 4 | 5 => {
             crate::gen_c19::semantic_docs(p, &mut w, i - nt * CHUNKS - 3);
         }
         _ => {
